@@ -11,7 +11,7 @@ EXPLANATION = (
     "etc.); msgpack's extension types are written and read by inverse codec pairs with equal parameters (struct format, byte "
     "order, signedness) and every written ext code is read; recreate_classes descends into set/list/tuple/dict alike; server and "
     "client use one serializer object per exchange; the call envelope (object, method, vargs, kwargs) is written and read in matching "
-    "positions/keys; the isinstance dispatch chains of the type mappers test subtypes before supertypes; compression flag/transform pairing (shared with C06-R7). "
+    "positions/keys; the isinstance dispatch chains of the type mappers test subtypes before supertypes; no serializer dereferences the kwargs slot that the proxy leaves None for attribute and batch requests; compression flag/transform pairing (shared with C06-R7). "
     "Not decided: that serpent/json/marshal/msgpack/zlib return what was put in over the unbounded value domain, the "
     "documented type mapping, idempotence."
 )
@@ -52,6 +52,81 @@ def applies(ctx, f, expr, qual_suffix, node=None, depth=0):
     if isinstance(expr, ast.DictComp):
         return applies(ctx, f, expr.value, qual_suffix, node, depth + 1)
     return False
+
+
+def kwargs_slot_names(g, mname):
+    """(name, defining statement or None) pairs holding the kwargs slot of the call envelope in dumpsCall / loadsCall"""
+    if mname == "dumpsCall":
+        if len(g.params) < 5:
+            raise AnalysisError("%s: fewer than 4 envelope parameters" % g.qualname)
+        return [(g.params[4], None)]
+    out = []
+    for n in walk_no_nested(g.node):
+        if isinstance(n, ast.Assign) and isinstance(n.targets[0], ast.Tuple) and len(n.targets[0].elts) == 4 and isinstance(n.targets[0].elts[3], ast.Name):
+            out.append((n.targets[0].elts[3].id, n))
+    return out
+
+
+NONE_INTOLERANT_BUILTINS = {"len", "dict", "list", "tuple", "set", "sorted", "iter", "enumerate", "zip", "frozenset"}
+
+
+def none_deref(ctx, g, slots):
+    """first expression in g that dereferences one of the slot variables while it may still hold the raw (possibly None) envelope value"""
+    from .c03 import edge_has_fact
+    cfg, rd_ = ctx.cfg(g), ctx.rd(g)
+    for name, defstmt in slots:
+        for n in walk_no_nested(g.node):
+            if not (isinstance(n, ast.Name) and n.id == name and isinstance(n.ctx, ast.Load)):
+                continue
+            par = getattr(n, "_parent", None)
+            deref = None
+            if isinstance(par, ast.Attribute) and par.value is n:
+                deref = par
+            elif isinstance(par, ast.Subscript) and par.value is n:
+                deref = par
+            elif isinstance(par, (ast.For, ast.comprehension)) and par.iter is n:
+                deref = n
+            elif isinstance(par, ast.Starred) or (isinstance(par, ast.keyword) and par.arg is None):
+                deref = par
+            elif isinstance(par, ast.Call) and isinstance(par.func, ast.Name) and par.func.id in NONE_INTOLERANT_BUILTINS and n in par.args:
+                deref = par
+            elif isinstance(par, ast.Compare) and n in par.comparators and any(isinstance(o, (ast.In, ast.NotIn)) for o in par.ops):
+                deref = par
+            if deref is None:
+                continue
+            st = enclosing_stmt(n)
+            nodes = cfg.nodes_for(st)
+            if not nodes:
+                continue
+            # is the raw value still in the variable here?
+            raw = any((defstmt is None and d.kind == "param") or (defstmt is not None and d.kind == "unpack" and d.index == 3)
+                      for nd in nodes for d in rd_.reaching(nd, name))
+            if not raw:
+                continue
+
+            def truthy(atom, pol, name=name):
+                if isinstance(atom, ast.Name) and atom.id == name:
+                    return pol is True
+                if isinstance(atom, ast.Compare) and len(atom.ops) == 1 and isinstance(atom.left, ast.Name) and atom.left.id == name \
+                        and isinstance(atom.comparators[0], ast.Constant) and atom.comparators[0].value is None:
+                    return (isinstance(atom.ops[0], ast.IsNot) and pol is True) or (isinstance(atom.ops[0], ast.Is) and pol is False)
+                return False
+            # expression-level guards: `x.items() if x else ...`, `x and x.items()`
+            guarded_expr = False
+            cur, child = par, n
+            while cur is not None and not isinstance(cur, ast.stmt):
+                if isinstance(cur, ast.IfExp) and child is cur.body and isinstance(cur.test, ast.Name) and cur.test.id == name:
+                    guarded_expr = True
+                if isinstance(cur, ast.BoolOp) and isinstance(cur.op, ast.And) and child is not cur.values[0] \
+                        and any(isinstance(v, ast.Name) and v.id == name for v in cur.values[:cur.values.index(child)]):
+                    guarded_expr = True
+                child, cur = cur, getattr(cur, "_parent", None)
+            if guarded_expr:
+                continue
+            if all(cfg.guarded(nd, lambda e: edge_has_fact(e, truthy)) for nd in nodes):
+                continue
+            return deref
+    return None
 
 
 def run(ctx, R, tier):
@@ -255,6 +330,27 @@ def run(ctx, R, tier):
                     ok = got == params
                     why = "written under keys %s, read back in the order %s (expected %s)" % (keys, got, params)
         R.check(ok, "C01-R7", "%s|call-envelope" % c.name, "object, method, vargs and kwargs travel in matching positions / keys", dc.loc(), why)
+
+    # ---------------------------------------------------------------- R9
+    R.rule("C01-R9", "optional envelope slots: the proxy sends kwargs=None for attribute and batch requests, so no dumpsCall/loadsCall dereferences the kwargs slot unguarded", floor=8)
+    none_sites = []
+    for g in p.functions.values():
+        if not g.module.name.startswith("Pyro5.client"):
+            continue
+        for n in walk_no_nested(g.node):
+            if isinstance(n, ast.Call) and isinstance(n.func, ast.Attribute) and n.func.attr == "_pyroInvoke":
+                a = n.args[2] if len(n.args) > 2 else next((k.value for k in n.keywords if k.arg == "kwargs"), None)
+                if isinstance(a, ast.Constant) and a.value is None:
+                    none_sites.append(g.loc(n))
+    R.note("C01-R9 premise: %d _pyroInvoke call sites pass kwargs=None (%s)" % (len(none_sites), ", ".join(none_sites[:4])))
+    for c in sorted(sers, key=lambda c: c.name):
+        for mname in ("dumpsCall", "loadsCall"):
+            g = c.methods[mname]
+            bad = none_deref(ctx, g, kwargs_slot_names(g, mname)) if none_sites else None
+            R.check(bad is None, "C01-R9", "%s.%s|kwargs-may-be-None" % (c.name, mname),
+                    "the kwargs slot is only passed on, tested, or dereferenced under a guard / `or {}` default", g.loc(),
+                    ("`%s` at %s dereferences the kwargs slot, which is None for remote attribute access and for batches (%s): every such request fails "
+                     "with this serializer" % (unparse(bad, 70), g.loc(bad), none_sites[0])) if bad is not None else "")
 
     # ---------------------------------------------------------------- R3
     from ..report import Rules
